@@ -115,7 +115,23 @@ theorem useCandidate_id (s : St) (k : Sock) (a : Addr) (h : s.role = .controllin
   · simp [h]
   · by_cases hr : s.role ≠ .controlled <;> simp [hr, h]
 
-/-! ### handleRequest -/
+/-! ### handleAuthenticated / handleRequest -/
+@[simp] theorem handleAuthenticated_pending (s : St) (k : Sock) (a : Addr) (r : Req) :
+    (handleAuthenticated s k a r).pending = s.pending := by
+  unfold handleAuthenticated; split <;> simp
+@[simp] theorem handleAuthenticated_role (s : St) (k : Sock) (a : Addr) (r : Req) :
+    (handleAuthenticated s k a r).role = s.role := by
+  unfold handleAuthenticated; split <;> simp
+@[simp] theorem handleAuthenticated_locals (s : St) (k : Sock) (a : Addr) (r : Req) :
+    (handleAuthenticated s k a r).locals = s.locals := by
+  unfold handleAuthenticated; split <;> simp
+@[simp] theorem handleAuthenticated_latching (s : St) (k : Sock) (a : Addr) (r : Req) :
+    (handleAuthenticated s k a r).latching = s.latching := by
+  unfold handleAuthenticated; split <;> simp
+theorem handleAuthenticated_remotes (s : St) (k : Sock) (a : Addr) (r : Req) :
+    (handleAuthenticated s k a r).remotes = (learn s k a).remotes := by
+  unfold handleAuthenticated; split <;> simp
+
 @[simp] theorem handleRequest_pending (s : St) (k : Sock) (a : Addr) (r : Req) :
     (handleRequest s k a r).pending = s.pending := by
   unfold handleRequest; split <;> simp
@@ -128,8 +144,11 @@ theorem useCandidate_id (s : St) (k : Sock) (a : Addr) (h : s.role = .controllin
 @[simp] theorem handleRequest_latching (s : St) (k : Sock) (a : Addr) (r : Req) :
     (handleRequest s k a r).latching = s.latching := by
   unfold handleRequest; split <;> simp
-theorem handleRequest_remotes (s : St) (k : Sock) (a : Addr) (r : Req) :
-    (handleRequest s k a r).remotes = (learn s k a).remotes := by
-  unfold handleRequest; split <;> simp
+theorem handleRequest_unauth (s : St) (k : Sock) (a : Addr) (r : Req) (hw : s.webrtc = true) (hr : r.accepted = false) :
+    handleRequest s k a r = s := by
+  simp [handleRequest, hw, hr]
+theorem handleRequest_auth (s : St) (k : Sock) (a : Addr) (r : Req) (h : s.webrtc = false ∨ r.accepted = true) :
+    handleRequest s k a r = handleAuthenticated s k a r := by
+  rcases h with h | h <;> simp [handleRequest, h]
 
 end RtcModel.IceAuth
